@@ -185,14 +185,12 @@ def run_case(case, ctx):
                 bps = [-1.0, 0.0, 1.0]
                 near = [b for b in bps if abs(x[i] - b) < 2.5 * h]
                 code1_here = "normsys" in p.kinds and case["normsys"] == "code1"
-                if x[i] == 0.0 and code1_here:
-                    if not case.get("keep_known"):
-                        ctx.excluded("code1 (normsys) evaluated at exactly alpha=0: autodiff of |alpha| returns 0")
-                        continue
                 if near:
                     b = near[0]
                     hh = 2e-4
-                    if x[i] == b:
+                    # jax and tensorflow flush subnormals to zero: a subnormal alpha *is* the breakpoint 0 there
+                    flushed = case["backend"] in ("jax", "tensorflow") and b == 0.0 and abs(x[i]) < 2.3e-308
+                    if x[i] == b or flushed:
                         lo, hi = sorted([one_sided(hh, -1), one_sided(hh, +1)])
                     else:
                         side = 1 if x[i] > b else -1
